@@ -113,8 +113,25 @@ class Gen:
                 return 'rbm ' + hx(self.string())     # a value whose MarshalJSON fails with an arbitrary error text (control bytes, invalid UTF-8)
             if c < 0.87:
                 return 'rf'
-            if c < 0.93:
+            if c < 0.90:
                 return 'rst %d %s' % (r.randint(-5, 5), hx(self.string()))
+            if c < 0.96:     # defined types over basic kinds, with / without MarshalText or MarshalJSON of their own; json.Number
+                d = r.randrange(8)
+                if d == 0:
+                    return 'rdi %d' % r.choice([0, -3, 2 ** 62, r.randint(-999, 999)])
+                if d == 1:
+                    return 'rdu %d' % r.choice([0, 7, 2 ** 32 - 1])
+                if d == 2:
+                    return 'rds ' + hx(self.string())
+                if d == 3:
+                    return 'rdb %d' % r.randint(0, 1)
+                if d == 4:
+                    return 'rti %d' % r.randint(-50, 50)
+                if d == 5:
+                    return 'rts ' + hx(self.string())
+                if d == 6:
+                    return 'rjs ' + hx(self.string())
+                return 'rjn ' + hx(r.choice(['0', '-7', '12.50', '1e3', '1E-2', '123456789012345678901234567890', 'abc', '']))
             return 're ' + hx(self.string())
         if k < 0.75:
             n = r.randint(0, 3)
